@@ -374,7 +374,7 @@ PROPS["C09"] = {
 }
 PROPS["C20"] = {
     "kani_units": ["U1", "U4", "U16"],
-    "verus_units": [],
+    "verus_units": ["migrate_item"],
     "level": "proof",
     "technique": "Kani/CBMC loop-free contracts on the real recover_key_prefix / key splice, complete over all keys and index sizes",
     "claim": "For every 32-byte hashed key, index size 16..=49 and valid address: the key that migration feeds to the destination (page number + partial key recovered by recover_key_prefix, spliced with the 26-byte key tail stored with the value) equals the source key bit for bit, and the entry's address is preserved. This is the data-dependent core of 'every key of the source returns the same value'.",
@@ -508,6 +508,10 @@ UNIT_META = {
                                "termination not proved (needs finite acyclic stored trees)", "a record never holds 2^62 operations"]},
     "log_mask_walk": {"functions": ["index::IndexTable::{validate_plan,skip_plan}", "ref_count::RefCountTable::{validate_plan,skip_plan}"],
                       "assumes": ["LogReader::read contract (fills the buffer or fails; position advances by the buffer length)", "u64::from_le_bytes uninterpreted (only equality of the decoded mask matters)", "vstd axiom_u64_trailing_zeros"]},
+    "migrate_item": {"functions": ["migration::migrate (body of the per-item closure passed to iter_column_index_while; fragment)"],
+                     "assumes": ["captured variables of the closure become &mut parameters of a wrapper (identifier rewrites listed in extraction_notes)",
+                                 "pushing a Set onto the pending change set, Db::commit_raw (success appends the pending operations in order; failure leaves the destination unchanged), mem::take, Vec::clone and the progress timer are replaced by their contracts (rewrites listed in extraction_notes)",
+                                 "the progress counter ncommits does not overflow u64 (explicit precondition)"]},
     "ref_counter": {"functions": ["table::ValueTable::change_ref (fragment)"], "assumes": ["Buf::read_rc models the entry buffer positioned at the counter"]},
     "U1": {
         "functions": ["index::Entry::{new,address_bits,last_address,address,partial_key,extract_key,is_empty,empty,as_u64,from_u64}",
